@@ -416,6 +416,14 @@ func TestVF_C19_Matrix(t *testing.T) {
 		c19Fail(t, st, part, map[string]string{"ca_bundle": "(none configured)", "role": "server"}, fmt.Sprintf("server TLS config with CA verification on was built without any configured CA (client CA pool set: %v)", cfg != nil && cfg.ClientCAs != nil))
 	}
 	st.Case(vfshared.Fingerprint("bundle", "none"), true, "fail_closed_bundle")
+	// the proxy as client with verification on but no server name configured cannot match "the configured name": it
+	// must not come up - and if a configuration were produced it must not have switched verification off
+	caFile := filepath.Join(dir, "ca-good.pem")
+	_ = os.WriteFile(caFile, ca.pem, 0o600)
+	if cfg, err := GetClientTLSConfig(TLSConfig{CertificatePath: own, KeyPath: ownKey, RemoteCAPath: caFile, CAServerName: ""}); err == nil && cfg != nil && (cfg.InsecureSkipVerify || cfg.ServerName == "") {
+		c19Fail(t, st, part, map[string]string{"role": "client", "ca_server_name": ""}, fmt.Sprintf("client TLS config with CA verification on and no server name was built and would not verify the server's name (InsecureSkipVerify=%v)", cfg != nil && cfg.InsecureSkipVerify))
+	}
+	st.Case(vfshared.Fingerprint("client", "no-server-name"), true, "fail_closed_server_name")
 	done := true
 	st.Exhaustive = &done
 }
